@@ -434,6 +434,15 @@ def gobj (props : List PropE) : Node :=
 def fnObj (id : String) : Node :=
   .obj { rt := 0, cls := "Function", klass := "object", ext := true, proto := none, props := [], payload := .native id }
 
+/-! ### settings -/
+
+/-- **C17.settings_table** — for every setting the property constrains, `Copy()` does what it
+    demands: stack depth limit, stack trace limit and random source are in force on the copy, the
+    interrupt channel is not shared.  (Finite domain: proved for all five settings, and the harness
+    observes all five through behaviour at copy depths 0-3.) -/
+theorem settings_table (s : Setting) (b : Bool) (h : Spec.carried s = some b) : carried s = b := by
+  cases s <;> simp [Spec.carried] at h <;> simp [carried, h]
+
 /-! ### totality, and the hypotheses as executable checks -/
 
 /-- **C17.clone_total** — fuel is not a restriction: given more fuel than the heap has nodes the
@@ -484,9 +493,10 @@ example : (match cloneRuntime 1 hSmall 7 8 rSmall with
 /-- fields holding a mutable reference that the clone path deliberately does not set from a cloner
     call: `object.value` (decided per payload type, see `payload_cases_fresh`), `runtime.scope` and
     `runtime.labels` (nil/empty in a runtime at rest – the copy starts at rest), `runtime.otto` (set by
-    `Otto.Copy`, otto.go:640) -/
+    `Otto.Copy`, otto.go:640), `Otto.Interrupt` (left nil: a copy has no interrupt channel until the embedder
+    gives it one – sharing the template's would break isolation) -/
 def notCloned : List (String × String) :=
-  [("object", "value"), ("runtime", "scope"), ("runtime", "labels"), ("runtime", "otto")]
+  [("object", "value"), ("runtime", "scope"), ("runtime", "labels"), ("runtime", "otto"), ("Otto", "Interrupt")]
 
 /-- payload types holding a reference that objectClone copies by value: primitive wrappers (`Value`
     holding a primitive), `dateObject` (its `value` is a number), `ottoError` (its `trace` slice is
@@ -495,10 +505,12 @@ def sharedPayloads : List String := ["Value", "dateObject", "ottoError", "result
 
 /-- **C17.clone_fields_fresh** — every field on the clone path whose type can hold a mutable reference
     (pointer to object/runtime/stash/scope, `stasher`, map, slice, interface, or a struct containing
-    one) is assigned from a cloner call, `c.runtime`, or a freshly made container. A field copied by
-    reference makes this fail, naming the field. -/
+    one) is assigned from a cloner call, `c.runtime`, or a freshly made container, or is on the `notCloned`
+    list AND left at its zero value. A field copied by reference (also through a shallow struct copy
+    `out := *o`) makes this fail, naming the field. -/
 theorem clone_fields_fresh :
-    Gen.cloneFields.all (fun f => !f.2.2.2.2.1 || f.2.2.2.2.2 == "fresh" || notCloned.contains (f.2.1, f.2.2.1)) = true := by decide
+    Gen.cloneFields.all (fun f => !f.2.2.2.2.1 || f.2.2.2.2.2 == "fresh" ||
+      (f.2.2.2.2.2 == "unset" && notCloned.contains (f.2.1, f.2.2.1))) = true := by decide
 
 /-- the structs and fields are the ones the model transcribes (a new field shows up here) -/
 theorem clone_fields_expected : Gen.cloneFields.map (fun f => (f.2.1, f.2.2.1)) =
@@ -515,7 +527,7 @@ theorem clone_fields_expected : Gen.cloneFields.map (fun f => (f.2.1, f.2.2.1)) 
      ("Value", "value"), ("Value", "kind"),
      ("runtime", "global"), ("runtime", "globalObject"), ("runtime", "globalStash"), ("runtime", "scope"), ("runtime", "otto"),
      ("runtime", "eval"), ("runtime", "debugger"), ("runtime", "random"), ("runtime", "labels"), ("runtime", "stackLimit"),
-     ("runtime", "traceLimit"), ("runtime", "lck")] := by decide
+     ("runtime", "traceLimit"), ("runtime", "lck"), ("Otto", "Interrupt"), ("Otto", "runtime")] := by decide
 
 /-- **C17.payload_cases_fresh** — every payload type objectClone's switch handles either holds no
     mutable reference (nativeFunctionObject: Go function values and strings) or is rebuilt from cloner calls -/
